@@ -31,6 +31,7 @@ pub enum Focus {
     C07,
     C09,
     C10,
+    C11,
     C12,
     C13,
     C14,
@@ -51,6 +52,7 @@ impl Focus {
             Focus::C16 => "C16",
             Focus::C09 => "C09",
             Focus::C10 => "C10",
+            Focus::C11 => "C11",
             Focus::C12 => "C12",
             Focus::C13 => "C13",
             Focus::C14 => "C14",
@@ -1382,6 +1384,28 @@ pub fn lookup(seed: u64, focus: Focus, rep: &mut Report) {
         if rng.chance(1, 2) {
             s.w.faults = Faults3 { drop: rng.below(100), dup: rng.below(60), delay: rng.below(200), ..Default::default() };
         }
+        // C11: a few responders slip a record at an unrequested distance into their answers: the
+        // record of a node that exists nowhere else, so that any trace of it is their doing
+        let mut liars: Vec<(usize, Id)> = Vec::new();
+        if focus == Focus::C11 {
+            let nl = 1 + rng.usize(3);
+            let candidates: Vec<usize> = all.iter().copied().filter(|i| !s.w.nodes[*i].b.silent && s.w.nodes[*i].b.respond).take(nl).collect();
+            for i in candidates.iter() {
+                let me = s.w.id(*i);
+                for _ in 0..400 {
+                    let sk = signing_key(&mut rng);
+                    let a = v4(10, 88, 0, 1 + rng.below(200) as u8, 9000);
+                    let e = build_enr(&sk, 1, EnrAddr::Socket(a), None);
+                    let pid = e.node_id().raw();
+                    if log2(&me, &pid) <= 252 {
+                        s.w.nodes[*i].b.off_distance_record = Some((rlp_ref::encode_record(&e), pid));
+                        s.w.nodes[*i].b.lose_replies = 0;
+                        liars.push((*i, pid));
+                        break;
+                    }
+                }
+            }
+        }
         let boot = 1 + rng.usize(6);
         let mut boots = all.clone();
         rng.shuffle(&mut boots);
@@ -1587,6 +1611,56 @@ pub fn lookup(seed: u64, focus: Focus, rep: &mut Report) {
         }
         s.w.faults = Faults3::default();
         s.settle_all(Duration::from_secs(20), rep).await;
+        // ---- C11: who got banned, and what surfaced ----
+        if focus == Focus::C11 {
+            let bans = discv5::verif::ban_list_snapshot();
+            let is_banned = |s: &Sys, i: usize| bans.ban_nodes.contains_key(&NodeId::new(&s.w.id(i))) || bans.ban_ips.contains_key(&s.w.nodes[i].sim.addr().ip());
+            let liar_idx: HashSet<usize> = liars.iter().map(|(i, _)| *i).collect();
+            for i in 0..s.w.nodes.len() {
+                if !liar_idx.contains(&i) && is_banned(&s, i) {
+                    s.flag(rep, Focus::C11, "C11:honest-responder-banned", format!("node {i}, which answered every request as the protocol prescribes (or not at all), is on the ban list"), json!({"node": i}));
+                }
+            }
+            rep.count_n("sys_honest_nodes_checked_for_bans", (s.w.nodes.len() - liar_idx.len()) as u64);
+            for (i, pid) in &liars {
+                if s.w.events.iter().any(|(_, e)| matches!(e, EvSum::Discovered(id, _) if id == pid)) || s.w.table().iter().any(|e| e.0 == *pid) {
+                    s.flag(rep, Focus::C11, "C11:off-distance-record-accepted", format!("the record node {i} returned at a distance that was not requested surfaced (Discovered event or table entry)"), json!({"node": i}));
+                }
+                // the record travels in the first packet of the answer: if that packet reached the
+                // node under test while it was still waiting for it, the responder must be banned
+                let mut delivered_alive = false;
+                for (t_served, n, rid) in &s.w.off_distance_served {
+                    if n != i {
+                        continue;
+                    }
+                    let tx: Vec<Duration> = s.w.trace.iter().filter_map(|(t, e)| match e {
+                        WEv::Sent { node: Some(k), msg: Some(RefMessage::FindNode { id, .. }), .. } if k == i && id == rid => Some(*t),
+                        _ => None,
+                    }).collect();
+                    // the packet that carries the record (another packet of the answer may have been
+                    // lost or may arrive first)
+                    let phantom_raw = s.w.nodes[*i].b.off_distance_record.as_ref().map(|(r, _)| r.clone()).unwrap_or_default();
+                    let first_packet = s.w.trace.iter().find_map(|(t, e)| match e {
+                        WEv::Injected { node: Some(k), msg: Some(RefMessage::Nodes { id, records, .. }), .. } if k == i && id == rid && *t >= *t_served && records.contains(&phantom_raw) => Some(*t),
+                        _ => None,
+                    });
+                    if let Some(tp) = first_packet {
+                        // ... and it is the first packet of that answer to arrive (after other
+                        // packets the request may already be complete and the packet is ignored)
+                        let earlier = s.w.trace.iter().any(|(t, e)| *t < tp && matches!(e, WEv::Injected { node: Some(k), msg: Some(RefMessage::Nodes { id, .. }), .. } if k == i && id == rid));
+                        if !earlier && tx.iter().any(|t| *t <= tp && tp < *t + request_timeout) {
+                            delivered_alive = true;
+                        }
+                    }
+                }
+                if delivered_alive {
+                    rep.count("sys_off_distance_answers_delivered");
+                    if !is_banned(&s, *i) {
+                        s.flag(rep, Focus::C11, "C11:off-distance-responder-not-banned", format!("node {i} returned a record at a distance that was not requested, in a packet the node under test was waiting for, and is not banned"), json!({"node": i}));
+                    }
+                }
+            }
+        }
         s.finish(rep);
         if std::env::var("DV5_TRACE").is_ok() {
             eprintln!("{}", serde_json::to_string_pretty(&s.w.dump(100000)).unwrap());
@@ -2003,6 +2077,7 @@ pub fn replay(r: &Value, rep: &mut Report) -> bool {
         "C16" => Focus::C16,
         "C09" => Focus::C09,
         "C10" => Focus::C10,
+        "C11" => Focus::C11,
         "C12" => Focus::C12,
         "C13" => Focus::C13,
         "C14" => Focus::C14,
@@ -2012,7 +2087,7 @@ pub fn replay(r: &Value, rep: &mut Report) -> bool {
     };
     match focus {
         Focus::C01 => attack(seed, rep),
-        Focus::C09 | Focus::C10 => lookup(seed, focus, rep),
+        Focus::C09 | Focus::C10 | Focus::C11 => lookup(seed, focus, rep),
         Focus::C17 => votes(seed, rep),
         _ => mixed(seed, focus, rep),
     }
@@ -2042,7 +2117,7 @@ pub fn run_debug(p: &crate::util::Params) -> Report {
             crate::util::guarded(&mut rep, seed, |rep| mixed(seed, f, rep));
         }
         crate::util::guarded(&mut rep, seed, |rep| attack(seed, rep));
-        for f in [Focus::C09, Focus::C10] {
+        for f in [Focus::C09, Focus::C10, Focus::C11] {
             crate::util::guarded(&mut rep, seed, |rep| lookup(seed, f, rep));
         }
         crate::util::guarded(&mut rep, seed, |rep| votes(seed, rep));
